@@ -305,7 +305,28 @@ fn mk_sig_item(s: &Value, items_enc: &[u8]) -> Vec<u8> {
             Some(o) if !o.is_null() => enc_items(o),
             _ => items_enc.to_vec(),
         };
-        let msg = indep::content_bytes(&over);
+        // "frame": how the signed message frames the item list: canonical (default), "long" = a long-form list header
+        // although the payload is shorter than 56 bytes, "long2" = two length bytes, "str" = a string header
+        let msg = match get(s, "frame").as_str().unwrap_or("canon") {
+            "long" => {
+                let mut m = vec![0xf8, over.len() as u8];
+                m.extend_from_slice(&over);
+                m
+            }
+            "long2" => {
+                let mut m = vec![0xf9, (over.len() >> 8) as u8, over.len() as u8];
+                m.extend_from_slice(&over);
+                m
+            }
+            "str" => {
+                let mut m = Vec::new();
+                indep::enc_hdr(false, over.len(), &mut m);
+                m.extend_from_slice(&over);
+                m
+            }
+            "bare" => over.clone(),
+            _ => indep::content_bytes(&over),
+        };
         keys::indep_sign(by, &msg).expect("signer")
     };
     match get(s, "tweak").as_str().unwrap_or("none") {
